@@ -1,38 +1,31 @@
-"""Registered properties and their tests.
+"""Registered properties and their tests, collected from harness/props/*/check.json.
 
-Each test: pkg (harness/props/<pkg>), name (Go test function), mode (rapid | plain | fuzz),
-quick/thorough: shards, checks (rapid cases per shard), timeout (s per shard), env.
-"""
-
-def rapid(pkg, name, q, t, steps=None, **kw):
-    d = dict(pkg=pkg, name=name, mode="rapid",
-             quick=dict(shards=q[0], checks=q[1], timeout=q[2] if len(q) > 2 else 600),
-             thorough=dict(shards=t[0], checks=t[1], timeout=t[2] if len(t) > 2 else 3600))
-    if steps:
-        d["quick"]["steps"] = steps
-        d["thorough"]["steps"] = steps
-    d.update(kw)
-    return d
-
-
-def plain(pkg, name, q, t, **kw):
-    d = dict(pkg=pkg, name=name, mode="plain")
-    if q:
-        d["quick"] = dict(shards=q[0], timeout=q[1])
-    if t:
-        d["thorough"] = dict(shards=t[0], timeout=t[1])
-    d.update(kw)
-    return d
-
-
-PROPS = {
-    "C20": dict(level="exploration", tests=[
-        rapid("c20", "TestC20Queue", (16, 20000, 300), (16, 1000000, 3600), steps=60),
-        plain("c20", "TestC20SeqBoundary", (1, 60), (1, 60)),
-        plain("c20", "TestC20ForwardPromotes", (1, 60), (1, 60)),
-    ]),
-    "C11": dict(level="exploration", tests=[
-        rapid("c11", "TestC11Pool", (16, 60000, 300), (16, 3000000, 3600)),
-        plain("c11", "TestC11Exhaustive", (16, 300), (16, 3600)),
-    ]),
+check.json format (one per test package; several packages may serve one property):
+{
+ "property": "C20", "level": "exploration",
+ "tests": [
+  {"name": "TestC20Queue", "mode": "rapid",            # rapid | plain | fuzz
+   "quick":    {"shards": 16, "checks": 20000, "timeout": 300, "steps": 60},
+   "thorough": {"shards": 16, "checks": 1000000, "timeout": 3600, "steps": 60}},
+  {"name": "TestC20SeqBoundary", "mode": "plain", "quick": {"shards": 1, "timeout": 60}, "thorough": {"shards": 1, "timeout": 60}}
+ ]
 }
+rapid: `checks` cases per shard process, seed derived from VERIF_SEED/shard/test name. plain: ordinary Go test that
+reads VERIF_SHARD / VERIF_NSHARDS / VERIF_SEED / VERIF_TIER itself. fuzz (thorough only): {"fuzztime": "60s"}.
+A tier that is absent means the test does not run in that tier. Optional per tier: "env": {..}, "race": true, "memlimit".
+"""
+import glob
+import json
+import os
+
+ROOT = os.path.dirname(os.path.abspath(__file__))
+PROPS = {}
+for f in sorted(glob.glob(os.path.join(ROOT, "harness", "props", "*", "check.json"))):
+    pkg = os.path.basename(os.path.dirname(f))
+    d = json.load(open(f))
+    p = PROPS.setdefault(d["property"], {"level": d.get("level", "exploration"), "tests": []})
+    for t in d["tests"]:
+        t = dict(t)
+        t["pkg"] = pkg
+        t.setdefault("mode", "rapid")
+        p["tests"].append(t)
